@@ -1,31 +1,1108 @@
-// probe (temporary)
-use wow_mpq::{Archive, ArchiveBuilder, AttributesOption, FormatVersion, ListfileOption};
+//! C10 — corruption of protected data is detected; intact data always verifies. DESIGN.md §6 C10.
+//!
+//! Worker for: per-sector / single-unit checksums (verifier = `Archive::read_file`), version-4 header and table
+//! digests (verifier = `Archive::open` + `get_info().md5_status`), the weak signature of an archive signed with the
+//! library's own `generate_weak_signature` (verifier = `Archive::verify_signature`), and the sign/verify/bit-flip sweep
+//! over the signature functions.  The CRC32/MD5 attribute verifier (`SFileVerifyFile`) lives in vh-ffi/src/bin/c10_ffi.rs,
+//! which includes THIS file as a module (`#[path]`) for the archive generator, region map and corruption enumerator:
+//! keep it edition-2021 compatible and free of `vh_mpq` imports.
+//!
+//! Oracle per corrupted archive: detected (open/read/verify reports failure) | harmless (returned content bit-identical)
+//! | undetected-and-different = violation.  A caught panic while handling a corrupted archive is tallied as
+//! `crash_on_corruption` (that is C05's clause, the corruption did not pass silently) and is not a C10 violation;
+//! a panic on the *intact* archive is `intact-fails`.
+//! The region map (where to corrupt) is derived from the library's own header / `find_file` answers plus the builder's
+//! documented layout and is sanity-checked to tile the archive; it is never used as the oracle.
+
+#![allow(dead_code)]
+
+use serde_json::{Value, json};
+use std::collections::BTreeMap;
+use std::os::unix::fs::FileExt;
+use std::path::{Path, PathBuf};
+use vh_common::{Case, Rng, Run, brief, first_diff, fnv64, gen_content, trap};
+use wow_mpq::crypto::{SignatureInfo, generate_weak_signature, parse_weak_signature, verify_weak_signature, verify_weak_signature_stormlib};
+use wow_mpq::{Archive, ArchiveBuilder, AttributesOption, FormatVersion, ListfileOption, Md5Status, SignatureStatus};
+
+pub const FLAG_COMPRESS: u32 = 0x0000_0200;
+pub const FLAG_ENCRYPTED: u32 = 0x0001_0000;
+pub const FLAG_SINGLE_UNIT: u32 = 0x0100_0000;
+pub const FLAG_SECTOR_CRC: u32 = 0x0400_0000;
+
+pub fn method_name(m: u8) -> &'static str {
+    match m {
+        0 => "none",
+        0x02 => "zlib",
+        0x10 => "bzip2",
+        _ => "other",
+    }
+}
+
+// ------------------------------------------------------------------ archives ----
+
+#[derive(Clone, Debug)]
+pub struct ArcCfg {
+    pub version: u8,
+    pub shift: u16,
+    pub method: u8,
+    pub enc: bool,
+    /// 0 none, 1 CRC32 (+ sector checksums), 2 CRC32+MD5+FILETIME (+ sector checksums)
+    pub attr: u8,
+    pub tblcomp: bool,
+    /// 0 unsigned, 1 signed (signature file between the user files), 2 signed with the signature file straddling the 64 KiB digest unit
+    pub signed: u8,
+}
+
+impl ArcCfg {
+    pub fn enc_name(&self) -> &'static str {
+        if self.enc { "encrypted" } else { "plain" }
+    }
+    pub fn label(&self) -> String {
+        format!("v{}|s{}|{}|{}|a{}|t{}|g{}", self.version, self.shift, method_name(self.method), self.enc_name(), self.attr, self.tblcomp as u8, self.signed)
+    }
+    pub fn to_json(&self) -> Value {
+        json!({"version": self.version, "sector_shift": self.shift, "method": method_name(self.method), "enc": self.enc_name(), "attributes": self.attr, "compress_tables": self.tblcomp, "signed": self.signed})
+    }
+    pub fn sector(&self) -> usize {
+        512usize << self.shift
+    }
+}
+
+#[derive(Clone, Debug)]
+pub struct StoredFile {
+    pub name: String,
+    /// "single" | "3-sector" | "9-sector" | "signature" | "special"
+    pub shape: &'static str,
+    pub data: Vec<u8>,
+    pub pos: usize,
+    pub csize: usize,
+    pub fsize: usize,
+    pub flags: u32,
+    pub block_index: usize,
+    /// bytes the block occupies in the archive file (compressed size + checksum bytes the block table does not count)
+    pub stored: usize,
+}
+
+impl StoredFile {
+    pub fn shape_sig(&self) -> &'static str {
+        match self.shape {
+            "3-sector" | "9-sector" => "multi-sector",
+            s => s,
+        }
+    }
+}
+
+#[derive(Clone, Debug)]
+pub struct Region {
+    pub kind: &'static str,
+    pub file: Option<usize>,
+    pub ranges: Vec<(usize, usize)>,
+}
+
+pub struct Built {
+    pub path: PathBuf,
+    pub bytes: Vec<u8>,
+    pub files: Vec<StoredFile>,
+    pub regions: Vec<Region>,
+    pub sector: usize,
+    pub baseline_md5: Option<Md5Status>,
+}
+
+impl Built {
+    pub fn region(&self, kind: &str, file: Option<usize>) -> Option<&Region> {
+        self.regions.iter().find(|r| r.kind == kind && r.file == file)
+    }
+    pub fn user_files(&self) -> impl Iterator<Item = (usize, &StoredFile)> {
+        self.files.iter().enumerate().filter(|(_, f)| matches!(f.shape, "single" | "3-sector" | "9-sector"))
+    }
+}
+
+fn mixed_content(rng: &mut Rng, len: usize, random_tail_percent: usize) -> Vec<u8> {
+    let tail = len * random_tail_percent / 100;
+    let mut v = gen_content(rng, "text", len - tail);
+    v.extend(rng.bytes(tail));
+    v
+}
+
+/// Build the archive of `cfg` (content derives from (seed, cfg) only, so every case over the same cfg sees the same archive),
+/// sign it when asked, and derive the region map.
+pub fn build(cfg: &ArcCfg, seed: u64, path: &Path) -> Result<Built, String> {
+    let sector = cfg.sector();
+    let mut rng = Rng::for_case(seed, fnv64(cfg.label().as_bytes()), 0xC10);
+    let mut specs: Vec<(String, &'static str, Vec<u8>, u8, bool)> = Vec::new();
+    if cfg.signed == 2 {
+        specs.push(("filler.bin".into(), "single", rng.bytes(65_000), 0, false));
+        specs.push(("(signature)".into(), "signature", vec![0u8; 72], 0, false));
+        specs.push(("tail.txt".into(), "single", gen_content(&mut rng, "text", 3000), cfg.method, cfg.enc));
+    } else {
+        let l1 = sector * 3 / 5 + rng.usize(40);
+        let l3 = 2 * sector + sector / 5 + rng.usize(40);
+        let l9 = 8 * sector + sector / 7 + rng.usize(40);
+        specs.push(("single.txt".into(), "single", gen_content(&mut rng, "text", l1), cfg.method, cfg.enc));
+        if cfg.signed == 1 {
+            specs.push(("(signature)".into(), "signature", vec![0u8; 72], 0, false));
+        }
+        specs.push(("three.dat".into(), "3-sector", gen_content(&mut rng, "text", l3), cfg.method, cfg.enc));
+        // the 9-sector file ends in incompressible bytes: with a codec selected it holds compressed and raw sectors
+        specs.push(("nine.bin".into(), "9-sector", mixed_content(&mut rng, l9, 35), cfg.method, cfg.enc));
+    }
+    let mut attempt = 0;
+    loop {
+        attempt += 1;
+        let ver = match cfg.version {
+            1 => FormatVersion::V1,
+            2 => FormatVersion::V2,
+            3 => FormatVersion::V3,
+            _ => FormatVersion::V4,
+        };
+        let mut b = ArchiveBuilder::new().version(ver).block_size(cfg.shift).default_compression(cfg.method).listfile_option(ListfileOption::Generate);
+        b = match cfg.attr {
+            1 => b.attributes_option(AttributesOption::GenerateCrc32),
+            2 => b.attributes_option(AttributesOption::GenerateFull),
+            _ => b.attributes_option(AttributesOption::None),
+        };
+        if cfg.version >= 3 {
+            b = b.compress_tables(cfg.tblcomp);
+        }
+        for (name, _, data, method, enc) in &specs {
+            b = if *enc { b.add_file_data_with_encryption(data.clone(), name, *method, false, 0) } else { b.add_file_data_with_options(data.clone(), name, *method, false, 0) };
+        }
+        b.build(path).map_err(|e| format!("build failed: {e}"))?;
+        if cfg.signed == 2 && attempt < 4 {
+            // place the 72-byte signature file across the 64 KiB digest-unit boundary
+            let a = Archive::open(path).map_err(|e| format!("open of fresh archive failed: {e}"))?;
+            let p = a.find_file("(signature)").map_err(|e| e.to_string())?.ok_or("no (signature) in fresh archive")?.file_pos as i64;
+            let want = 65_536 - 30;
+            if p != want {
+                let l = specs[0].2.len() as i64 + (want - p);
+                specs[0].2 = rng.bytes(l.max(1) as usize);
+                continue;
+            }
+        }
+        break;
+    }
+    let mut bytes = std::fs::read(path).map_err(|e| e.to_string())?;
+    let mut a = Archive::open(path).map_err(|e| format!("open of fresh archive failed: {e}"))?;
+    let hdr = a.header().clone();
+    let header_size = hdr.header_size as usize;
+    let mut files: Vec<StoredFile> = Vec::new();
+    let mut all_specs: Vec<(String, &'static str, Vec<u8>)> = specs.iter().map(|s| (s.0.clone(), s.1, s.2.clone())).collect();
+    all_specs.push(("(listfile)".into(), "special", vec![]));
+    if cfg.attr != 0 {
+        all_specs.push(("(attributes)".into(), "special", vec![]));
+    }
+    for (name, shape, data) in all_specs {
+        let fi = a.find_file(&name).map_err(|e| format!("find_file {name}: {e}"))?.ok_or(format!("fresh archive lacks {name}"))?;
+        let (pos, csize, fsize, flags) = (fi.file_pos as usize, fi.compressed_size as usize, fi.file_size as usize, fi.flags);
+        let nsec = fsize.div_ceil(sector);
+        let single = flags & FLAG_SINGLE_UNIT != 0 || flags & FLAG_COMPRESS == 0;
+        let crc_extra = if flags & FLAG_SECTOR_CRC == 0 {
+            0
+        } else if single {
+            4
+        } else {
+            4 * nsec
+        };
+        files.push(StoredFile { name, shape, data, pos, csize, fsize, flags, block_index: fi.block_index, stored: csize + crc_extra });
+    }
+    // ---- sanity of the layout assumptions: the blocks tile [header, first table)
+    let mut order: Vec<usize> = (0..files.len()).collect();
+    order.sort_by_key(|&i| files[i].pos);
+    let hash_pos = hdr.get_hash_table_pos() as usize;
+    let block_pos = hdr.get_block_table_pos() as usize;
+    let ext = [hdr.het_table_pos, hdr.bet_table_pos].iter().filter_map(|p| p.filter(|&x| x != 0)).map(|x| x as usize).min();
+    let data_end = ext.unwrap_or(hash_pos).min(hash_pos);
+    let mut cur = header_size;
+    for &i in &order {
+        if files[i].pos != cur {
+            return Err(format!("region map: block of {} starts at {} but the previous block ended at {cur}", files[i].name, files[i].pos));
+        }
+        cur += files[i].stored;
+    }
+    if cur != data_end {
+        return Err(format!("region map: blocks end at {cur}, tables start at {data_end}"));
+    }
+    // ---- regions
+    let mut regions: Vec<Region> = Vec::new();
+    for (i, f) in files.iter().enumerate() {
+        if f.shape == "special" {
+            continue;
+        }
+        let single = f.flags & FLAG_SINGLE_UNIT != 0;
+        let crc = f.flags & FLAG_SECTOR_CRC != 0;
+        if f.shape == "signature" {
+            regions.push(Region { kind: "sig_header", file: Some(i), ranges: vec![(f.pos, f.pos + 8)] });
+            regions.push(Region { kind: "signature", file: Some(i), ranges: vec![(f.pos + 8, f.pos + 72)] });
+            continue;
+        }
+        if single {
+            regions.push(Region { kind: "file_data", file: Some(i), ranges: vec![(f.pos, f.pos + f.csize)] });
+            if crc {
+                regions.push(Region { kind: "unit_crc", file: Some(i), ranges: vec![(f.pos + f.csize, f.pos + f.csize + 4)] });
+            }
+        } else {
+            let nsec = f.fsize.div_ceil(sector);
+            let t_end = f.pos + 4 * (nsec + 1);
+            regions.push(Region { kind: "sector_table", file: Some(i), ranges: vec![(f.pos, t_end)] });
+            let c_end = if crc { t_end + 4 * nsec } else { t_end };
+            if crc {
+                regions.push(Region { kind: "crc_table", file: Some(i), ranges: vec![(t_end, c_end)] });
+            }
+            regions.push(Region { kind: "file_data", file: Some(i), ranges: vec![(c_end, f.pos + f.stored)] });
+            if f.flags & FLAG_ENCRYPTED == 0 {
+                // an unencrypted sector table must point at the first sector exactly where the map puts it
+                let first = u32::from_le_bytes([bytes[f.pos], bytes[f.pos + 1], bytes[f.pos + 2], bytes[f.pos + 3]]) as usize;
+                if f.pos + first != c_end {
+                    return Err(format!("region map: sector table of {} says data starts at +{first}, map says +{}", f.name, c_end - f.pos));
+                }
+            }
+        }
+    }
+    if let Some(f) = files.iter().find(|f| f.name == "(attributes)") {
+        let cnt = (hdr.block_table_size as usize).saturating_sub(1);
+        let flags = u32::from_le_bytes([bytes[f.pos + 4], bytes[f.pos + 5], bytes[f.pos + 6], bytes[f.pos + 7]]);
+        let mut o = f.pos + 8;
+        let mut parts: Vec<Region> = vec![Region { kind: "attr_header", file: None, ranges: vec![(f.pos, f.pos + 8)] }];
+        for (bit, width, kind) in [(1u32, 4usize, "attr_crc32"), (2, 8, "attr_filetime"), (4, 16, "attr_md5")] {
+            if flags & bit != 0 {
+                parts.push(Region { kind, file: None, ranges: vec![(o, o + width * cnt)] });
+                o += width * cnt;
+            }
+        }
+        if o == f.pos + f.csize && f.flags & (FLAG_COMPRESS | FLAG_ENCRYPTED) == 0 {
+            regions.extend(parts);
+        } else {
+            regions.push(Region { kind: "attributes", file: None, ranges: vec![(f.pos, f.pos + f.csize)] });
+        }
+    }
+    let hash_len = hdr.v4_data.as_ref().map(|v| v.hash_table_size_64 as usize).unwrap_or(16 * hdr.hash_table_size as usize);
+    let block_len = hdr.v4_data.as_ref().map(|v| v.block_table_size_64 as usize).unwrap_or(16 * hdr.block_table_size as usize);
+    if hash_pos + hash_len > bytes.len() || block_pos + block_len > bytes.len() {
+        return Err("region map: tables beyond the end of the file".into());
+    }
+    regions.push(Region { kind: "hash_table", file: None, ranges: vec![(hash_pos, hash_pos + hash_len)] });
+    regions.push(Region { kind: "block_table", file: None, ranges: vec![(block_pos, block_pos + block_len)] });
+    if cfg.version >= 4 && header_size == 208 {
+        regions.push(Region { kind: "v4_header", file: None, ranges: vec![(0, 192)] });
+        regions.push(Region { kind: "v4_header_digest", file: None, ranges: vec![(192, 208)] });
+        regions.push(Region { kind: "v4_digests", file: None, ranges: vec![(112, 208)] });
+        if let Some(e) = ext {
+            if e < hash_pos {
+                regions.push(Region { kind: "het_bet_tables", file: None, ranges: vec![(e, hash_pos)] });
+            }
+        }
+    } else {
+        regions.push(Region { kind: "header", file: None, ranges: vec![(0, header_size)] });
+    }
+    let baseline_md5 = if cfg.version >= 4 { a.get_info().ok().and_then(|i| i.md5_status) } else { None };
+    drop(a);
+    // ---- signing (with the library's own function, over the file exactly as Archive::verify_signature will hash it)
+    if cfg.signed != 0 {
+        let si = files.iter().position(|f| f.shape == "signature").unwrap();
+        let (spos, slen) = (files[si].pos, files[si].csize);
+        if slen != 72 || files[si].flags & (FLAG_COMPRESS | FLAG_ENCRYPTED) != 0 {
+            return Err(format!("(signature) is not stored as 72 plain bytes (csize {slen}, flags {:08x})", files[si].flags));
+        }
+        if hdr.archive_size as usize != bytes.len() {
+            return Err(format!("header archive_size {} != file length {}", hdr.archive_size, bytes.len()));
+        }
+        let info = SignatureInfo::new_weak(0, bytes.len() as u64, spos as u64, 72, vec![]);
+        let sig = generate_weak_signature(std::io::Cursor::new(&bytes), &info).map_err(|e| format!("generate_weak_signature: {e}"))?;
+        if sig.len() != 72 {
+            return Err(format!("generate_weak_signature returned {} bytes", sig.len()));
+        }
+        bytes[spos..spos + 72].copy_from_slice(&sig);
+        files[si].data = sig;
+        std::fs::write(path, &bytes).map_err(|e| e.to_string())?;
+        // everything that is hashed: the whole file except the signature file
+        let other: Vec<(usize, usize)> = vec![(header_size, spos), (spos + 72, data_end)];
+        regions.push(Region { kind: "stored_files", file: None, ranges: other });
+    }
+    Ok(Built { path: path.to_path_buf(), bytes, files, regions, sector, baseline_md5 })
+}
+
+// -------------------------------------------------------------- corruptions ----
+
+pub const CK_QUICK: &[&str] = &["x01"];
+pub const CK_THOROUGH: &[&str] = &["x01", "x80", "z00", "zff", "b2"];
+
+/// One alteration = list of (absolute offset, new byte). `ck`: x01 / x80 = xor, z00 / zff = overwrite, b2 = two adjacent bytes inverted.
+pub fn alterations(bytes: &[u8], ranges: &[(usize, usize)], ck: &str, stride: usize, phase: usize) -> Vec<Vec<(usize, u8)>> {
+    let mut out = Vec::new();
+    let mut k = 0usize;
+    for &(s, e) in ranges {
+        for o in s..e {
+            k += 1;
+            if (k - 1) % stride != phase % stride {
+                continue;
+            }
+            let old = bytes[o];
+            let alt: Vec<(usize, u8)> = match ck {
+                "x01" => vec![(o, old ^ 0x01)],
+                "x80" => vec![(o, old ^ 0x80)],
+                "z00" => vec![(o, 0x00)],
+                "zff" => vec![(o, 0xFF)],
+                _ => {
+                    if o + 1 < e {
+                        vec![(o, !old), (o + 1, !bytes[o + 1])]
+                    } else {
+                        vec![(o, !old)]
+                    }
+                }
+            };
+            out.push(alt);
+        }
+    }
+    out
+}
+
+pub fn is_noop(bytes: &[u8], alt: &[(usize, u8)]) -> bool {
+    alt.iter().all(|&(o, v)| bytes[o] == v)
+}
+
+/// Applies alterations to the archive file in place and puts the original bytes back.
+pub struct Patcher<'a> {
+    f: std::fs::File,
+    orig: &'a [u8],
+}
+
+impl<'a> Patcher<'a> {
+    pub fn new(path: &Path, orig: &'a [u8]) -> std::io::Result<Self> {
+        Ok(Patcher { f: std::fs::OpenOptions::new().write(true).open(path)?, orig })
+    }
+    pub fn apply(&self, alt: &[(usize, u8)]) {
+        for &(o, v) in alt {
+            self.f.write_all_at(&[v], o as u64).expect("patch write");
+        }
+    }
+    pub fn restore(&self, alt: &[(usize, u8)]) {
+        for &(o, _) in alt {
+            self.f.write_all_at(&[self.orig[o]], o as u64).expect("restore write");
+        }
+    }
+}
+
+pub enum Verdict {
+    Detected(String),
+    Harmless,
+    Undetected(Value),
+    Crash(String),
+}
+
+impl Verdict {
+    fn encode(&self) -> String {
+        match self {
+            Verdict::Detected(by) => json!({"v": "D", "x": by}),
+            Verdict::Harmless => json!({"v": "H"}),
+            Verdict::Undetected(d) => json!({"v": "U", "x": d}),
+            Verdict::Crash(s) => json!({"v": "C", "x": s}),
+        }
+        .to_string()
+    }
+    fn decode(s: &str) -> Option<Verdict> {
+        let v: Value = serde_json::from_str(s).ok()?;
+        Some(match v["v"].as_str()? {
+            "D" => Verdict::Detected(v["x"].as_str()?.to_string()),
+            "H" => Verdict::Harmless,
+            "U" => Verdict::Undetected(v["x"].clone()),
+            _ => Verdict::Crash(v["x"].as_str()?.to_string()),
+        })
+    }
+}
+
+/// Address-space limit of an isolated probe. The archives are at most ~70 KiB; a reader that asks for more than this
+/// while handling one corrupted byte is aborted and tallied (`abort_on_corruption|oversized-request`), never counted as detected or harmless.
+pub const PROBE_AS_LIMIT: u64 = 1 << 30;
+
+/// Run one probe in a forked child (the worker is single-threaded): a process abort (allocation failure, panic inside
+/// `extern "C"`, stack overflow) becomes `Verdict::Crash("abort:<class>")` instead of killing the worker.
+pub fn isolated(scratch: &Path, f: impl FnOnce() -> Verdict) -> Verdict {
+    let errpath = scratch.join(format!("c10-child-stderr-{}.txt", std::process::id()));
+    let cerr = std::ffi::CString::new(errpath.to_string_lossy().as_bytes()).unwrap();
+    unsafe {
+        let mut fds = [0i32; 2];
+        if libc::pipe(fds.as_mut_ptr()) != 0 {
+            return Verdict::Crash("harness:pipe-failed".into());
+        }
+        let pid = libc::fork();
+        if pid < 0 {
+            libc::close(fds[0]);
+            libc::close(fds[1]);
+            return Verdict::Crash("harness:fork-failed".into());
+        }
+        if pid == 0 {
+            libc::close(fds[0]);
+            let fd = libc::open(cerr.as_ptr(), libc::O_WRONLY | libc::O_CREAT | libc::O_TRUNC, 0o644);
+            if fd >= 0 {
+                libc::dup2(fd, 2);
+                libc::close(fd);
+            }
+            let lim = libc::rlimit { rlim_cur: PROBE_AS_LIMIT, rlim_max: PROBE_AS_LIMIT };
+            libc::setrlimit(libc::RLIMIT_AS, &lim);
+            let s = f().encode();
+            let b = s.as_bytes();
+            let mut off = 0;
+            while off < b.len() {
+                let n = libc::write(fds[1], b[off..].as_ptr() as *const libc::c_void, b.len() - off);
+                if n <= 0 {
+                    break;
+                }
+                off += n as usize;
+            }
+            libc::_exit(0);
+        }
+        libc::close(fds[1]);
+        let mut out = Vec::new();
+        let mut buf = [0u8; 4096];
+        loop {
+            let n = libc::read(fds[0], buf.as_mut_ptr() as *mut libc::c_void, buf.len());
+            if n <= 0 {
+                break;
+            }
+            out.extend_from_slice(&buf[..n as usize]);
+        }
+        libc::close(fds[0]);
+        let mut status = 0i32;
+        libc::waitpid(pid, &mut status, 0);
+        if libc::WIFEXITED(status) && libc::WEXITSTATUS(status) == 0 {
+            if let Some(v) = std::str::from_utf8(&out).ok().and_then(Verdict::decode) {
+                return v;
+            }
+            return Verdict::Crash("harness:child-answer-unreadable".into());
+        }
+        let err = std::fs::read_to_string(&errpath).unwrap_or_default();
+        let class = if err.contains("memory allocation of") {
+            "oversized-request"
+        } else if err.contains("cannot unwind") {
+            "panic-in-extern-C"
+        } else if err.contains("overflowed its stack") {
+            "stack-overflow"
+        } else if libc::WIFSIGNALED(status) {
+            match libc::WTERMSIG(status) {
+                libc::SIGSEGV => "SIGSEGV",
+                libc::SIGABRT => "SIGABRT",
+                libc::SIGKILL => "SIGKILL",
+                _ => "signal",
+            }
+        } else {
+            "exit-nonzero"
+        };
+        Verdict::Crash(format!("abort:{class}"))
+    }
+}
+
+#[derive(Default)]
+pub struct Tally {
+    pub probes: u64,
+    pub noop: u64,
+    pub detected: u64,
+    pub harmless: u64,
+    pub violated: u64,
+    pub crashed: u64,
+    pub aborted: BTreeMap<String, u64>,
+    pub by: BTreeMap<String, u64>,
+    pub first_viol: Option<Value>,
+    pub first_crash: Option<String>,
+}
+
+impl Tally {
+    pub fn add(&mut self, v: Verdict, alt: &[(usize, u8)], region_start: usize, bytes: &[u8]) {
+        self.probes += 1;
+        match v {
+            Verdict::Detected(by) => {
+                self.detected += 1;
+                *self.by.entry(by).or_insert(0) += 1;
+            }
+            Verdict::Harmless => self.harmless += 1,
+            Verdict::Undetected(d) => {
+                self.violated += 1;
+                if self.first_viol.is_none() {
+                    let a: Vec<Value> = alt.iter().map(|&(o, v)| json!({"archive_offset": o, "region_offset": o as i64 - region_start as i64, "old": bytes[o], "new": v})).collect();
+                    self.first_viol = Some(json!({"alteration": a, "observed": d}));
+                }
+            }
+            Verdict::Crash(s) => {
+                if s.starts_with("abort:") || s.starts_with("harness:") {
+                    *self.aborted.entry(s).or_insert(0) += 1;
+                } else {
+                    self.crashed += 1;
+                    if self.first_crash.is_none() {
+                        self.first_crash = Some(s);
+                    }
+                }
+            }
+        }
+    }
+    pub fn flush(&self, c: &mut Case, prefix: &str) {
+        c.count("offsets_corrupted", self.probes);
+        c.count(&format!("corrupted|{prefix}"), self.probes);
+        c.count("verdict_detected", self.detected);
+        c.count("verdict_harmless", self.harmless);
+        c.count("verdict_undetected_and_different", self.violated);
+        c.count(&format!("detected|{prefix}"), self.detected);
+        c.count(&format!("harmless|{prefix}"), self.harmless);
+        if self.violated > 0 {
+            c.count(&format!("violated|{prefix}"), self.violated);
+        }
+        c.count("alterations_skipped_no_change", self.noop);
+        for (k, n) in &self.by {
+            c.count(&format!("detected_by|{k}"), *n);
+        }
+        for (k, n) in &self.aborted {
+            if k.starts_with("harness:") {
+                c.count(&format!("probe_not_executed|{k}"), *n);
+            } else {
+                c.count("abort_on_corruption", *n);
+                c.count(&format!("abort_on_corruption|{}|{prefix}", &k[6..]), *n);
+            }
+        }
+        if self.crashed > 0 {
+            c.count("crash_on_corruption", self.crashed);
+            c.count(&format!("crash_on_corruption|{prefix}"), self.crashed);
+            c.note(json!({"crash_on_corruption": self.first_crash, "n": self.crashed}));
+        }
+    }
+}
+
+// ------------------------------------------------------------------- probes ----
+
+fn err_class(e: &wow_mpq::Error) -> &'static str {
+    match e {
+        wow_mpq::Error::ChecksumMismatch { .. } => "read:ChecksumMismatch",
+        _ => "read:error",
+    }
+}
+
+/// sector / unit checksums: the verifier is read_file itself.
+pub fn probe_read(path: &Path, f: &StoredFile) -> Verdict {
+    let r = trap(|| -> Result<Result<Vec<u8>, &'static str>, String> {
+        let mut a = match Archive::open(path) {
+            Ok(a) => a,
+            Err(_) => return Ok(Err("open:error")),
+        };
+        Ok(match a.read_file(&f.name) {
+            Ok(d) => Ok(d),
+            Err(e) => Err(err_class(&e)),
+        })
+    });
+    match r {
+        Err(p) => Verdict::Crash(p.sig()),
+        Ok(Err(s)) => Verdict::Crash(s),
+        Ok(Ok(Err(by))) => Verdict::Detected(by.into()),
+        Ok(Ok(Ok(d))) => {
+            if d == f.data {
+                Verdict::Harmless
+            } else {
+                Verdict::Undetected(json!({"read_file": "Ok", "want": brief(&f.data), "got": brief(&d), "first_diff": first_diff(&d, &f.data)}))
+            }
+        }
+    }
+}
+
+pub fn md5_fields(s: &Md5Status) -> [(&'static str, bool); 6] {
+    [("hash_table", s.hash_table_valid), ("block_table", s.block_table_valid), ("hi_block_table", s.hi_block_table_valid), ("het_table", s.het_table_valid), ("bet_table", s.bet_table_valid), ("header", s.header_valid)]
+}
+
+/// All user files through one opened archive: Err(by) when any read fails, Ok(None) when all identical, Ok(Some(witness)) when one differs.
+fn read_all(a: &mut Archive, b: &Built) -> Result<Option<Value>, String> {
+    let mut differs = None;
+    for (_, f) in b.user_files() {
+        match a.read_file(&f.name) {
+            Err(e) => return Err(err_class(&e).to_string()),
+            Ok(d) => {
+                if d != f.data && differs.is_none() {
+                    differs = Some(json!({"file": f.name, "shape": f.shape, "want": brief(&f.data), "got": brief(&d), "first_diff": first_diff(&d, &f.data)}));
+                }
+            }
+        }
+    }
+    Ok(differs)
+}
+
+/// version-4 digests: open + get_info().md5_status; "reports failure" = a digest that was valid on the intact archive is now
+/// invalid (or open / get_info fails). If the status is unchanged the content of every file is compared.
+pub fn probe_v4(b: &Built) -> Verdict {
+    let base = b.baseline_md5.clone();
+    let r = trap(|| -> Verdict {
+        let mut a = match Archive::open(&b.path) {
+            Ok(a) => a,
+            Err(_) => return Verdict::Detected("open:error".into()),
+        };
+        let info = match a.get_info() {
+            Ok(i) => i,
+            Err(_) => return Verdict::Detected("get_info:error".into()),
+        };
+        let mut status = "md5_status:unchanged";
+        match (&info.md5_status, &base) {
+            (Some(now), Some(was)) => {
+                let (n, w) = (md5_fields(now), md5_fields(was));
+                for k in 0..6 {
+                    if w[k].1 && !n[k].1 {
+                        return Verdict::Detected(format!("md5_status:{}", n[k].0));
+                    }
+                }
+            }
+            (None, _) => status = "md5_status:absent",
+            _ => {}
+        }
+        match read_all(&mut a, b) {
+            Err(by) => Verdict::Detected(by),
+            Ok(None) => Verdict::Harmless,
+            Ok(Some(w)) => Verdict::Undetected(json!({"verify": status, "differs": w})),
+        }
+    });
+    match r {
+        Ok(v) => v,
+        Err(p) => Verdict::Crash(p.sig()),
+    }
+}
+
+/// weak signature: anything but WeakValid counts as "stopped verifying".
+pub fn probe_signed(b: &Built) -> Verdict {
+    let r = trap(|| -> Verdict {
+        let mut a = match Archive::open(&b.path) {
+            Ok(a) => a,
+            Err(_) => return Verdict::Detected("open:error".into()),
+        };
+        match a.verify_signature() {
+            Err(_) => Verdict::Detected("verify_signature:error".into()),
+            Ok(SignatureStatus::WeakValid) => Verdict::Undetected(json!({"verify_signature": "WeakValid"})),
+            Ok(s) => Verdict::Detected(format!("verify_signature:{s:?}")),
+        }
+    });
+    match r {
+        Ok(v) => v,
+        Err(p) => Verdict::Crash(p.sig()),
+    }
+}
+
+// -------------------------------------------------------------------- cases ----
+
+#[derive(Clone, Debug)]
+pub struct Spec {
+    /// "sector-crc" | "sector-crc-paired" | "v4-digest" | "v4-digest-paired" | "weak-signature" | "sig-fn"
+    pub kind: &'static str,
+    pub cfg: ArcCfg,
+    pub file: usize,
+    pub region: &'static str,
+    pub ck: &'static str,
+    pub n: u64,
+}
+
+pub const NOFILE: usize = usize::MAX;
+
+/// Regions whose corruption feeds sizes / offsets to the reader (it may then request gigabytes or abort): probed in a
+/// forked child under an address-space limit, see `isolated`.
+pub fn risky_region(region: &str) -> bool {
+    matches!(region, "sector_table" | "v4_header" | "v4_header_digest" | "v4_digests" | "hash_table" | "block_table" | "het_bet_tables" | "header")
+}
+
+pub fn file_regions(shape_idx: usize) -> &'static [&'static str] {
+    if shape_idx == 0 { &["file_data", "unit_crc"] } else { &["sector_table", "crc_table", "file_data"] }
+}
+
+pub fn crc_cfgs(thorough: bool, attrs: &[u8]) -> Vec<ArcCfg> {
+    let mut v = Vec::new();
+    let vs: &[(u8, u16)] = if thorough { &[(1, 0), (2, 3), (3, 0), (4, 3), (2, 0), (1, 3)] } else { &[(1, 0), (2, 3)] };
+    for &(version, shift) in vs {
+        for &method in &[0u8, 0x02] {
+            for &enc in &[false, true] {
+                for &attr in attrs {
+                    v.push(ArcCfg { version, shift, method, enc, attr, tblcomp: false, signed: 0 });
+                }
+            }
+        }
+    }
+    v
+}
+
+fn specs(thorough: bool) -> Vec<Spec> {
+    let cks = if thorough { CK_THOROUGH } else { CK_QUICK };
+    let mut v = Vec::new();
+    // K1/K2 sector and unit checksums
+    for cfg in crc_cfgs(thorough, &[1]) {
+        for file in 0..3 {
+            for &region in file_regions(file) {
+                for &ck in cks {
+                    v.push(Spec { kind: "sector-crc", cfg: cfg.clone(), file, region, ck, n: 0 });
+                }
+            }
+        }
+        v.push(Spec { kind: "sector-crc-paired", cfg: cfg.clone(), file: 0, region: "unit_crc=0+file_data", ck: "x01", n: 0 });
+    }
+    // K3/K4 version-4 digests
+    let v4: &[(bool, bool)] = if thorough { &[(false, false), (true, true), (false, true), (true, false)] } else { &[(false, false), (true, true)] };
+    for &(enc, tblcomp) in v4 {
+        let cfg = ArcCfg { version: 4, shift: 0, method: 0x02, enc, attr: 1, tblcomp, signed: 0 };
+        for &region in &["v4_header", "v4_header_digest", "hash_table", "block_table", "het_bet_tables"] {
+            for &ck in cks {
+                v.push(Spec { kind: "v4-digest", cfg: cfg.clone(), file: NOFILE, region, ck, n: 0 });
+            }
+        }
+        for &region in &["hash_table", "block_table"] {
+            v.push(Spec { kind: "v4-digest-paired", cfg: cfg.clone(), file: NOFILE, region, ck: "x01", n: 0 });
+        }
+    }
+    // K5 signed archives
+    let mut sg = vec![
+        ArcCfg { version: 1, shift: 0, method: 0x02, enc: false, attr: 0, tblcomp: false, signed: 1 },
+        ArcCfg { version: 1, shift: 8, method: 0, enc: false, attr: 0, tblcomp: false, signed: 2 },
+    ];
+    if thorough {
+        sg.push(ArcCfg { version: 2, shift: 0, method: 0, enc: true, attr: 0, tblcomp: false, signed: 1 });
+        sg.push(ArcCfg { version: 1, shift: 3, method: 0x02, enc: true, attr: 0, tblcomp: false, signed: 1 });
+    }
+    for cfg in sg {
+        for &region in &["header", "stored_files", "hash_table", "block_table", "signature", "sig_header"] {
+            for &ck in cks {
+                v.push(Spec { kind: "weak-signature", cfg: cfg.clone(), file: NOFILE, region, ck, n: 0 });
+            }
+        }
+    }
+    // K6 signature functions
+    let nsig = if thorough { 600 } else { 200 };
+    for n in 0..nsig {
+        v.push(Spec { kind: "sig-fn", cfg: ArcCfg { version: 0, shift: 0, method: 0, enc: false, attr: 0, tblcomp: false, signed: 0 }, file: NOFILE, region: "-", ck: "bitflip", n });
+    }
+    v
+}
+
+/// quick: every 7th offset of bulk regions (phase from the seed), every offset of tables; thorough: every offset.
+pub fn stride_for(region: &str, thorough: bool) -> usize {
+    if thorough {
+        1
+    } else if matches!(region, "file_data" | "stored_files") {
+        7
+    } else {
+        1
+    }
+}
 
 fn main() {
-    let dir = std::env::args().nth(1).unwrap();
-    let text: Vec<u8> = (0..5000u32).flat_map(|i| format!("line {} of the text\r\n", i * 7919 % 1000).into_bytes()).collect();
-    for (ver, vn) in [(FormatVersion::V1, 1), (FormatVersion::V2, 2), (FormatVersion::V3, 3), (FormatVersion::V4, 4)] {
-        for tbl in [false, true] {
-            let p = format!("{dir}/p{vn}{}.mpq", tbl as u8);
-            let mut b = ArchiveBuilder::new().version(ver).block_size(0).default_compression(0x02).listfile_option(ListfileOption::Generate).attributes_option(AttributesOption::GenerateFull);
-            if vn >= 3 {
-                b = b.compress_tables(tbl);
+    let mut run = Run::new();
+    let thorough = run.args.thorough();
+    let dir = PathBuf::from(&run.args.scratch);
+    let all = specs(thorough);
+    for (i, sp) in all.iter().enumerate() {
+        let idx = i as u64;
+        if !run.want(idx) {
+            continue;
+        }
+        let seed = run.args.seed;
+        let mut rng = run.rng(idx, 0);
+        if sp.kind == "sig-fn" {
+            let (len, class) = sig_len(sp.n, &mut rng);
+            let desc = json!({"kind": "sig-fn", "n": sp.n, "len": len, "len_class": class});
+            run.case(idx, &format!("sig-fn|{class}"), desc, |c| sig_fn_case(c, len, &mut rng, thorough));
+            continue;
+        }
+        let stride = stride_for(sp.region, thorough);
+        let phase = rng.usize(stride);
+        let shape = if sp.file == NOFILE { "archive" } else { ["single", "3-sector", "9-sector"][sp.file] };
+        let class = format!("{}|{}|{}|{}|{}", sp.kind, sp.cfg.label(), shape, sp.region, sp.ck);
+        let desc = json!({"kind": sp.kind, "archive": sp.cfg.to_json(), "file_shape": shape, "region": sp.region, "corruption": sp.ck, "stride": stride, "phase": phase});
+        let path = dir.join(format!("c10-{idx}.mpq"));
+        run.case(idx, &class, desc, |c| {
+            let b = match build(&sp.cfg, seed, &path) {
+                Ok(b) => b,
+                Err(e) => {
+                    c.inconclusive(format!("archive generator: {e}"));
+                    return;
+                }
+            };
+            match sp.kind {
+                "sector-crc" | "sector-crc-paired" => crc_case(c, sp, &b, stride, phase),
+                "v4-digest" | "v4-digest-paired" => v4_case(c, sp, &b, stride, phase),
+                _ => signed_case(c, sp, &b, stride, phase),
             }
-            b = b.add_file_data_with_options(text[..300].to_vec(), "single.txt", 0x02, false, 0);
-            b = b.add_file_data_with_options(text[..1124].to_vec(), "three.txt", 0x02, false, 0);
-            b = b.add_file_data_with_encryption(text[..4173].to_vec(), "nine.txt", 0x02, false, 0);
-            b = b.add_file_data_with_options(vec![0u8; 72], "(signature)", 0, false, 0);
-            b.build(&p).unwrap();
-            let mut a = Archive::open(&p).unwrap();
-            let info = a.get_info().unwrap();
-            println!("v{vn} tbl={tbl} size={} md5={:?} sig={:?} het={} bet={}", info.file_size, info.md5_status, info.signature_status, a.het_table().is_some(), a.bet_table().is_some());
-            let h = a.header().clone();
-            println!("  header: hash@{} n={} block@{} n={} hi={:?} het={:?} bet={:?} asz={} v4={:?}", h.get_hash_table_pos(), h.hash_table_size, h.get_block_table_pos(), h.block_table_size, h.hi_block_table_pos, h.het_table_pos, h.bet_table_pos, h.get_archive_size(), h.v4_data.as_ref().map(|v| (v.hash_table_size_64, v.block_table_size_64, v.hi_block_table_size_64, v.het_table_size_64, v.bet_table_size_64)));
-            for n in ["single.txt", "three.txt", "nine.txt", "(signature)", "(attributes)", "(listfile)"] {
-                let fi = a.find_file(n).unwrap();
-                match fi {
-                    Some(fi) => println!("  {n}: pos={} csize={} fsize={} flags={:08x} bi={} read={:?}", fi.file_pos, fi.compressed_size, fi.file_size, fi.flags, fi.block_index, a.read_file(n).map(|d| d.len())),
-                    None => println!("  {n}: not found"),
+            let _ = std::fs::remove_file(&path);
+        });
+    }
+    run.done();
+}
+
+pub fn sweep(c: &mut Case, b: &Built, region_start: usize, alts: Vec<Vec<(usize, u8)>>, extra: &[(usize, u8)], isolate: bool, mut probe: impl FnMut() -> Verdict) -> Tally {
+    let scratch = b.path.parent().unwrap_or(Path::new(".")).to_path_buf();
+    let mut t = Tally::default();
+    let p = match Patcher::new(&b.path, &b.bytes) {
+        Ok(p) => p,
+        Err(e) => {
+            c.inconclusive(format!("cannot patch scratch archive: {e}"));
+            return t;
+        }
+    };
+    for mut alt in alts {
+        if is_noop(&b.bytes, &alt) {
+            t.noop += 1;
+            continue;
+        }
+        alt.extend_from_slice(extra);
+        p.apply(&alt);
+        let v = if isolate { isolated(&scratch, &mut probe) } else { probe() };
+        p.restore(&alt);
+        t.add(v, &alt, region_start, &b.bytes);
+    }
+    t
+}
+
+fn crc_case(c: &mut Case, sp: &Spec, b: &Built, stride: usize, phase: usize) {
+    let (method, enc) = (method_name(sp.cfg.method), sp.cfg.enc_name());
+    // baseline: the intact archive reads back identically (every file, checksums in force)
+    for (_, f) in b.user_files() {
+        c.count("baseline_verifications", 1);
+        if f.flags & FLAG_SECTOR_CRC == 0 {
+            c.inconclusive(format!("{} carries no sector checksum flag", f.name));
+            return;
+        }
+        match probe_read(&b.path, f) {
+            Verdict::Harmless => {}
+            Verdict::Detected(by) => c.violate(format!("intact-fails|sector-crc|read_file|{}|{method}|{enc}", f.shape_sig()), format!("reading {} from the unmodified archive fails ({by})", f.name), json!({})),
+            Verdict::Undetected(d) => c.violate(format!("intact-differs|sector-crc|read_file|{}|{method}|{enc}", f.shape_sig()), format!("{} reads back different from what was added", f.name), d),
+            Verdict::Crash(s) => c.violate(format!("intact-fails|sector-crc|read_file|{}|{method}|{enc}|{s}", f.shape_sig()), format!("reading {} from the unmodified archive panics", f.name), json!({})),
+        }
+    }
+    if !c.viol.is_empty() {
+        return;
+    }
+    let f = &b.files.iter().filter(|f| f.shape != "special").nth(sp.file).cloned().unwrap();
+    let fi = b.files.iter().position(|x| x.name == f.name);
+    let (rkind, extra): (&str, Vec<(usize, u8)>) = if sp.kind == "sector-crc-paired" {
+        // the stored unit checksum is zeroed ("no checksum" in other implementations) AND a data byte is altered
+        let r = b.region("unit_crc", fi).unwrap();
+        ("file_data", (r.ranges[0].0..r.ranges[0].1).map(|o| (o, 0u8)).collect())
+    } else {
+        (sp.region, vec![])
+    };
+    let Some(r) = b.region(rkind, fi) else {
+        c.skip(format!("no region {rkind} for {}", f.name));
+        c.nontrivial = false;
+        return;
+    };
+    let alts = alterations(&b.bytes, &r.ranges, sp.ck, stride, phase);
+    let t = sweep(c, b, r.ranges[0].0, alts, &extra, risky_region(rkind), || probe_read(&b.path, f));
+    t.flush(c, &format!("sector-crc|{}|{}", sp.region, f.shape));
+    if t.probes == 0 {
+        c.nontrivial = false;
+    }
+    if t.violated > 0 {
+        let sig = format!("undetected|sector-crc|{}|{}|{method}|{enc}", sp.region, f.shape_sig());
+        c.violate(sig, format!("{} of {} alterations ({}) in the {} of the {} file {:?} ({method}, {enc}): read_file returned Ok with content different from the original", t.violated, t.probes, sp.ck, sp.region, f.shape, f.name), t.first_viol.clone().unwrap_or(json!({})));
+    }
+}
+
+fn v4_case(c: &mut Case, sp: &Spec, b: &Built, stride: usize, phase: usize) {
+    let (method, enc) = (method_name(sp.cfg.method), sp.cfg.enc_name());
+    c.count("baseline_verifications", 1);
+    let Some(base) = &b.baseline_md5 else {
+        c.violate(format!("intact-fails|v4-digest|md5_status-absent|archive|{method}|{enc}"), "get_info().md5_status is None for a freshly built version-4 archive", json!({}));
+        return;
+    };
+    let bad: Vec<&str> = md5_fields(base).iter().filter(|x| !x.1).map(|x| x.0).collect();
+    if !bad.is_empty() {
+        // recorded, and the sweep goes on relative to this baseline: a digest that is invalid on the intact archive cannot report anything
+        c.violate(format!("intact-fails|v4-digest|{}|archive|any|any", bad.join("+")), format!("md5_status of the unmodified version-4 archive reports invalid digests: {}", bad.join(", ")), json!({"md5_status": format!("{base:?}")}));
+        c.count("v4_baseline_invalid_fields", bad.len() as u64);
+    }
+    match probe_v4(b) {
+        Verdict::Harmless => {}
+        _ => {
+            c.violate(format!("intact-fails|v4-digest|read_file|archive|{method}|{enc}"), "the unmodified version-4 archive does not read back identically", json!({}));
+            return;
+        }
+    }
+    let extra: Vec<(usize, u8)> = if sp.kind == "v4-digest-paired" {
+        // all six digests zeroed ("digest absent" in other implementations) AND a table byte altered
+        let r = b.region("v4_digests", None).unwrap();
+        (r.ranges[0].0..r.ranges[0].1).map(|o| (o, 0u8)).collect()
+    } else {
+        vec![]
+    };
+    let Some(r) = b.region(sp.region, None) else {
+        c.skip(format!("no region {}", sp.region));
+        c.nontrivial = false;
+        return;
+    };
+    let masked = sp.region == "het_bet_tables" && bad.iter().any(|x| *x == "het_table" || *x == "bet_table");
+    let alts = alterations(&b.bytes, &r.ranges, sp.ck, stride, phase);
+    let t = sweep(c, b, r.ranges[0].0, alts, &extra, true, || probe_v4(b));
+    let rname = if sp.kind == "v4-digest-paired" { format!("digests=0+{}", sp.region) } else { sp.region.to_string() };
+    t.flush(c, &format!("v4-digest|{rname}|archive"));
+    if masked {
+        c.count("v4_probes_under_baseline_invalid_digest", t.probes);
+    }
+    if t.probes == 0 {
+        c.nontrivial = false;
+    }
+    if t.violated > 0 {
+        c.violate(format!("undetected|v4-digest|{rname}|archive|{method}|{enc}"), format!("{} of {} alterations ({}) of {rname}: open succeeded, md5_status reported nothing new, and a file read back Ok with different content", t.violated, t.probes, sp.ck), t.first_viol.clone().unwrap_or(json!({})));
+    }
+}
+
+fn signed_case(c: &mut Case, sp: &Spec, b: &Built, stride: usize, phase: usize) {
+    let (method, enc) = (method_name(sp.cfg.method), sp.cfg.enc_name());
+    let placement = if sp.cfg.signed == 2 { "straddles-64KiB" } else { "inside-unit" };
+    c.count("baseline_verifications", 1);
+    let base = trap(|| Archive::open(&b.path).and_then(|mut a| a.verify_signature()));
+    match base {
+        Ok(Ok(SignatureStatus::WeakValid)) => {}
+        other => {
+            let s = match other {
+                Ok(Ok(s)) => format!("{s:?}"),
+                Ok(Err(e)) => format!("Err({e})"),
+                Err(p) => p.sig(),
+            };
+            c.violate(format!("intact-fails|weak-signature|verify_signature|{placement}|{method}|{enc}"), format!("an archive signed with generate_weak_signature does not verify: verify_signature() = {s}"), json!({"archive_len": b.bytes.len(), "signature_pos": b.files.iter().find(|f| f.shape == "signature").map(|f| f.pos)}));
+            return;
+        }
+    }
+    let Some(r) = b.regions.iter().find(|r| r.kind == sp.region) else {
+        c.skip(format!("no region {}", sp.region));
+        c.nontrivial = false;
+        return;
+    };
+    let alts = alterations(&b.bytes, &r.ranges, sp.ck, stride, phase);
+    let mut t = sweep(c, b, r.ranges[0].0, alts, &[], risky_region(sp.region), || probe_signed(b));
+    if sp.region == "sig_header" {
+        // the 8 bytes in front of the signature proper are excluded from the hash and are not part of the signature: not protected
+        c.count("unprotected_sig_header_probes", t.probes);
+        c.count("unprotected_sig_header_still_valid", t.violated);
+        t.harmless += t.violated;
+        t.violated = 0;
+    }
+    t.flush(c, &format!("weak-signature|{}|archive", sp.region));
+    if t.probes == 0 {
+        c.nontrivial = false;
+    }
+    if t.violated > 0 {
+        c.violate(format!("still-verifies|weak-signature|{}|{placement}|{method}|{enc}", sp.region), format!("{} of {} alterations ({}) of {}: verify_signature() still answers WeakValid", t.violated, t.probes, sp.ck, sp.region), t.first_viol.clone().unwrap_or(json!({})));
+    }
+}
+
+// -------------------------------------------------- signature functions ----
+
+fn sig_len(n: u64, rng: &mut Rng) -> (usize, &'static str) {
+    const FIXED: &[usize] = &[0, 1, 63, 64, 71, 72, 73, 65_535, 65_536, 65_537, 65_608, 131_071, 131_072, 131_073, 204_800];
+    let len = if (n as usize) < FIXED.len() {
+        FIXED[n as usize]
+    } else {
+        match n % 4 {
+            0 => rng.usize(2_000),
+            1 => 65_536 - 200 + rng.usize(400),
+            _ => rng.usize(204_801),
+        }
+    };
+    let class = match len {
+        0 => "empty",
+        1..=65_535 => "below-unit",
+        65_536 => "exactly-unit",
+        65_537..=131_071 => "two-units",
+        _ => "three-or-more-units",
+    };
+    (len, class)
+}
+
+fn flip(v: &mut [u8], bit: usize) {
+    v[bit / 8] ^= 1 << (bit % 8);
+}
+
+fn sig_fn_case(c: &mut Case, len: usize, rng: &mut Rng, thorough: bool) {
+    let mut data = rng.bytes(len);
+    // placement A: the signature lies outside the signed bytes (as in the crate documentation);
+    // placement B: a 72-byte signature area inside the data (zeroed for hashing), across a 64 KiB boundary when there is one.
+    let mut placements: Vec<(&'static str, u64)> = vec![("outside", len as u64)];
+    if len >= 72 {
+        let p = if len >= 65_536 + 40 && rng.bool() { 65_536 - 1 - rng.usize(70) } else { rng.usize(len - 72 + 1) };
+        placements.push(("inside", p as u64));
+    }
+    for (pl, pos) in placements {
+        let info = SignatureInfo::new_weak(0, len as u64, pos, 72, vec![]);
+        let excl = (pos as usize, (pos as usize + 72).min(len));
+        c.count("signatures_generated", 1);
+        let file = match trap(|| generate_weak_signature(std::io::Cursor::new(&data), &info)) {
+            Ok(Ok(f)) => f,
+            Ok(Err(e)) => {
+                c.violate(format!("sig-fn|generate-fails|generate_weak_signature|{pl}"), format!("generate_weak_signature failed on {len} bytes: {e}"), json!({}));
+                continue;
+            }
+            Err(p) => {
+                c.violate(format!("sig-fn|generate-fails|generate_weak_signature|{pl}|{}", p.sig()), format!("generate_weak_signature panicked on {len} bytes"), json!({}));
+                continue;
+            }
+        };
+        let sig = match parse_weak_signature(&file) {
+            Ok(s) if file.len() == 72 => s,
+            other => {
+                c.violate(format!("sig-fn|own-signature-rejected|parse_weak_signature|{pl}"), format!("the generated signature file ({} bytes) is not accepted by parse_weak_signature: {:?}", file.len(), other.err().map(|e| e.to_string())), json!({}));
+                continue;
+            }
+        };
+        let storm = |d: &[u8], s: &[u8]| -> bool { matches!(trap(|| verify_weak_signature_stormlib(std::io::Cursor::new(d), s, &info)), Ok(Ok(true))) };
+        let legacy = |d: &[u8], s: &[u8]| -> bool { matches!(trap(|| verify_weak_signature(std::io::Cursor::new(d), s, len as u64)), Ok(Ok(true))) };
+        let mut fns: Vec<(&'static str, &dyn Fn(&[u8], &[u8]) -> bool)> = vec![("verify_weak_signature_stormlib", &storm)];
+        if pl == "outside" {
+            // the legacy verifier hashes the first archive_size bytes as they are: comparable only when nothing is excluded
+            fns.push(("verify_weak_signature", &legacy));
+        }
+        let lead_zero = sig[63] == 0; // little-endian: the most significant byte of the signature integer
+        if lead_zero {
+            c.count("signatures_with_leading_zero_byte", 1);
+        }
+        for (fname, f) in fns {
+            c.count("sign_verify_pairs", 1);
+            if !f(&data, &sig) {
+                c.violate(format!("sig-fn|own-signature-rejected|{fname}|{pl}"), format!("{fname} rejects the signature generate_weak_signature produced over the same {len} bytes (signature area {pl})"), json!({"len": len, "signature_pos": pos, "signature": vh_common::hex(&sig)}));
+                c.count(&format!("flips_masked_by_rejected_baseline|{fname}"), 1);
+                continue;
+            }
+            // every bit of the signature
+            let mut still = 0u64;
+            let mut first = None;
+            let mut s2 = sig.clone();
+            for bit in 0..512 {
+                flip(&mut s2, bit);
+                c.count("signature_bit_flips", 1);
+                if f(&data, &s2) {
+                    still += 1;
+                    first.get_or_insert(bit);
+                }
+                flip(&mut s2, bit);
+            }
+            if still > 0 {
+                c.violate(format!("sig-fn|still-verifies|{fname}|signature-bit|{pl}"), format!("{fname} still verifies after flipping a signature bit ({still} of 512 bits; first: bit {})", first.unwrap()), json!({"len": len}));
+            }
+            // sampled + targeted bits of the signed data
+            if len > 0 {
+                let nbits = len * 8;
+                let mut bits: Vec<usize> = Vec::new();
+                for byte in [0usize, len - 1, len / 2, 65_535, 65_536, 131_071, 131_072, excl.0.wrapping_sub(1), excl.1] {
+                    if byte < len {
+                        bits.push(byte * 8 + rng.usize(8));
+                    }
+                }
+                let want = if thorough { 3000 } else { 1000 };
+                for _ in 0..want.min(nbits) {
+                    bits.push(rng.usize(nbits));
+                }
+                let mut still = 0u64;
+                let mut first = None;
+                for bit in bits {
+                    let byte = bit / 8;
+                    if pl == "inside" && byte >= excl.0 && byte < excl.1 {
+                        c.count("data_bits_in_excluded_area_skipped", 1);
+                        continue;
+                    }
+                    flip(&mut data, bit);
+                    c.count("data_bit_flips", 1);
+                    if f(&data, &sig) {
+                        still += 1;
+                        first.get_or_insert(bit);
+                    }
+                    flip(&mut data, bit);
+                }
+                if still > 0 {
+                    let fb = first.unwrap() / 8;
+                    let wh = if fb >= len.saturating_sub(len % 65_536) { "last-partial-unit" } else { "full-unit" };
+                    c.violate(format!("sig-fn|still-verifies|{fname}|data-bit|{pl}|{wh}"), format!("{fname} still verifies after flipping a bit of the signed data ({still} flips; first: byte {fb} of {len})"), json!({"len": len, "signature_pos": pos}));
                 }
             }
         }
